@@ -23,8 +23,13 @@ def init_worker():
     logging.disable(logging.WARNING)
     import torch
     torch.set_num_threads(1)
-    torch.set_default_dtype(torch.float64)
+    # the library is imported under torch's stock default dtype (float32), as in a user's process; only afterwards is the
+    # default switched to float64 so that modules built by the checks carry float64 filters (anything the library creates at
+    # import time or without an explicit dtype then shows up as a precision / dtype discrepancy)
     import pytorch_wavelets
+    import pytorch_wavelets.dwt.transform2d, pytorch_wavelets.dwt.lowlevel, pytorch_wavelets.dtcwt.lowlevel      # noqa
+    import pytorch_wavelets.dtcwt.transform_funcs, pytorch_wavelets.scatternet.lowlevel                           # noqa
+    torch.set_default_dtype(torch.float64)
     p = os.path.realpath(pytorch_wavelets.__file__)
     if not p.startswith(os.path.realpath(REPO) + os.sep):
         raise SystemExit("BROKEN: pytorch_wavelets imported from %s, expected under %s" % (p, REPO))
